@@ -69,6 +69,11 @@ def mutate(rng, cfg):
             live = [n for n, s in svcs.items() if not s.get("todo")]
         elif live:
             ref = rng.choice(["%ghost%", "@ghost", "a%ghost.p%b", "%%%ghost2%", "%%ghost%%", "@phantom", "%p%%ghost%"])
+            if rng.random() < 0.35:
+                # a name that IS declared — in the other namespace: a parameter is not a service and a service is not a parameter
+                cross = ["@" + q for q in cfg["parameters"] if q not in svcs] + ["%" + q + "%" for q in svcs if q not in cfg["parameters"]]
+                if cross:
+                    ref = rng.choice(cross)
             pos = rng.choice(["arg", "call", "field", "dec", "param"])
             s = svcs[rng.choice(live)]
             if pos == "arg" and "constructor" in s:
@@ -116,6 +121,9 @@ def run(ctx, n=None):
         {"parameters": {"x": "%%y%%", "z": "%y%"}},
         {"services": {"a": {"constructor": "fx.NewA", "calls": [["Call1", ["@b"]]], "fields": {"F1": "%p%"}}}},
         {"services": {"a": {"todo": True, "arguments": ["@nothing", "%nothing%"]}}},
+        # parameters and services are separate namespaces
+        {"parameters": {"mailer": "smtp"}, "services": {"clock": {"constructor": "fx.NewA"}, "a": {"constructor": "fx.NewA", "arguments": ["@mailer", "%clock%", "%mailer%", "@clock"]}}},
+        {"parameters": {"p": "%clock%"}, "services": {"clock": {"constructor": "fx.NewA", "tags": ["t"]}}, "decorators": [{"tag": "t", "decorator": "fx.Dec1", "arguments": ["%clock%", "@p"]}]},
     ]
     cases = fixed + [mutate(ctx.rng, gen.gen_config(ctx.rng)) if i % 5 else gen.gen_config(ctx.rng) for i in range(n)]
     cases += [gen.gen_config_wild(ctx.rng) for _ in range(n)]
